@@ -9,7 +9,8 @@ META = {
             "carry/borrow variables) equals exact arithmetic modulo 2^(16n) for every digit count n and all operands, incl. total division "
             "(fuel bound 2^w proved, exact iteration count), shifts by any amount, todouble as exact truncation, constructors, free operators "
             "with unsigned/signed built-in operands on both sides, self-aliasing compound forms, ring laws on digit arrays, every "
-            "numeric_limits member, hash_value (bit-exact model of hash_combiner<8>), stream insertion; the model is tied "
+            "numeric_limits member, hash_value (bit-exact model of hash_combiner<8>), stream insertion on a stream in every formatting state "
+            "(flags, fill, width, locale grouping: C10_print_state); the model is tied "
             "to dune/common/bigunsignedint.hh on every run by running extracted model and the C++ class (17 widths, 1..1024 bits) on identical "
             "exhaustive digit-alphabet, boundary-directed and random operands and random object histories (aliasing, special members, built-in operand types, throwing steps; theorem C10_histories) and by re-reading ~45 constants from the source (tools/params.d/C10.py), "
             "which the `consts`/`limits` cases compare with the compiled values.",
@@ -210,6 +211,7 @@ def gen(ctx):
             cases.append("%d stream %s" % (k, rval(n)))
         for _ in range(3):
             cases.append("%d streamsb %s" % (k, rval(n)))
+        cases += gen_stream_state(rng, k, n, quick)
         for _ in range(N // 5 + 5):
             cases.append("%d hash %s" % (k, rval(n)))
         for op in ["default", "limits", "consts"]:
@@ -217,6 +219,52 @@ def gen(ctx):
         for op in ["max", "min", "digits"]:
             cases.append("%d %s" % (k, op))
     return cases
+
+
+# 16-bit digits whose hex rendering has leading / embedded / trailing zero nibbles, letters, all-zero, all-f
+PRINT_ALPHA = ["0000", "0001", "000f", "0010", "00ff", "0100", "0a0b", "0fff", "1000", "f000", "abcd", "ffff"]
+ADJ = "lrinb"            # adjustfield: left, right, internal, no bit, left|right
+BASES = "dohn"           # basefield: dec, oct, hex, no bit
+FILLS = ["20", "30", "2a", "66", "31", "78"]      # ' ' '0' '*' 'f' '1' 'x'
+
+
+def gen_stream_state(rng, k, n, quick):
+    """print()/operator<< on streams in EVERY formatting state (theorem C10_print_state): case
+    `k printst|streamst <value> <adj><base><sb><uc><sp><grp> <width> <fill>`.  Exhaustive over adjustfield x width class
+    x fill x uppercase (the other flags drawn at random), a sweep over all 5*4*2*2*2*3 flag combinations at width 0 and at a
+    width above 4n, and random states; values: digits with leading/embedded/trailing zero nibbles in every position."""
+    out = []
+    hexlen = 4 * n
+    def pval():
+        z = rng.random()
+        if z < 0.75:
+            return "".join(rng.choice(PRINT_ALPHA) for _ in range(n))
+        return "".join("%04x" % rng.randrange(65536) for _ in range(n))
+    first = [d + "".join(rng.choice(PRINT_ALPHA) for _ in range(n - 1)) for d in ("0001", "f000", "0000")]   # first hex digit zero / non-zero
+    widths = [0, 1, 2, hexlen - 1, hexlen, hexlen + 1, hexlen + 5]
+    def flags(adj, uc, base=None, sb=None, sp=None, grp=None):
+        return "%s%s%d%d%d%d" % (adj, base if base is not None else rng.choice(BASES), sb if sb is not None else rng.randrange(2), uc,
+                                 sp if sp is not None else rng.randrange(2), grp if grp is not None else rng.choice([0, 0, 1, 3]))
+    i = 0
+    for adj in ADJ:
+        for w in widths:
+            for fill in (FILLS[:3] if quick else FILLS):
+                for uc in (0, 1):
+                    i += 1
+                    out.append("%d %s %s %s %d %s" % (k, "printst" if i % 2 else "streamst", first[i % 3] if i % 4 == 0 else pval(), flags(adj, uc), w, fill))
+    for adj in ADJ:
+        for base in BASES:
+            for sb in (0, 1):
+                for uc in (0, 1):
+                    for sp in (0, 1):
+                        for grp in (0, 1, 3):
+                            i += 1
+                            w = 0 if i % 3 else hexlen + 3
+                            out.append("%d %s %s %s %d %s" % (k, "streamst" if i % 2 else "printst", pval(), flags(adj, uc, base, sb, sp, grp), w, rng.choice(FILLS)))
+    for _ in range(40 if quick else 600):
+        out.append("%d %s %s %s %d %s" % (k, rng.choice(["printst", "streamst"]), pval(), flags(rng.choice(ADJ), rng.randrange(2)),
+                                          rng.choice(widths + [rng.randrange(2 * hexlen + 2)]), rng.choice(FILLS)))
+    return out
 
 
 ARITH = ["add", "sub", "mul", "div", "mod"]
@@ -342,6 +390,16 @@ def oracle_line(case, impl, spec):
         return "a statement of the history does not return (the property demands: never looping); expected %s" % spec
     if t[1] == "self" and impl.startswith("HANG"):
         return "x %s= x does not return (the property demands: never looping); value semantics give %s" % (t[2], spec)
+    if t[1] in ("printst", "streamst"):
+        spec = spec.partition(" | ")[0]
+        if impl == spec:
+            return None
+        it, _, ist = impl[1:].rpartition("] ")
+        st, _, sst = spec[1:].rpartition("] ")
+        if it != st:
+            return ("printed text %r is not the hex rendering of the value in a field of the pending width, %r (adjustfield %s, width %s, fill 0x%s, flags %s)"
+                    % (it, st, t[3][0], t[4], t[5], t[3]))
+        return "stream state after the insertion is %r, expected %r (width consumed, decimal, all other flags unchanged)" % (ist, sst)
     if t[1] == "hash":
         return None          # the property fixes consistency only (hasheq); the bit-exact value is a model tie (corr)
     if t[1] == "hasheq":
@@ -367,6 +425,8 @@ def sig_of(case):
         return "C10:stream:showbase"
     if op == "self":
         return "C10:self-alias:%s" % t[2]
+    if op in ("printst", "streamst"):
+        return "C10:print-state:adjust=%s:%s" % ({"l": "left", "r": "right", "i": "internal"}.get(t[3][0], "other"), "width0" if t[4] == "0" else "width")
     return "C10:%s%s" % (op, extra)
 
 
@@ -392,10 +452,16 @@ def run(ctx):
     for i, (c, m, a) in enumerate(zip(cases, mo, io)):
         op = c.split()[1]; ops[op] = ops.get(op, 0) + 1
         mm, _, spec = m.partition(" | ")
+        written = None
+        if op in ("printst", "streamst"):        # third field: the model of print AS WRITTEN (theorem C10_print_width_refuted)
+            spec, _, written = spec.partition(" | ")
         reason = oracle_line(c, a, spec)
         if reason is not None:
             nviol += 1
             sg = sig_of(c)
+            if written is not None and a == written and c.split()[4] != "0":
+                # exactly the behaviour of the code as written: the pending width pads the first hex digit alone (F-C10-7)
+                sg = "C10:print-state:width-pads-first-digit"
             if op == "prog":      # WHAT fails in the history, from the impl's own observation
                 sg += (":hang" if "HANG" in a else ":throwing-statement-modifies-object" if "modified by a throwing" in a
                        else ":returned-reference" if "does not return *this" in a else ":state")
@@ -413,7 +479,7 @@ def run(ctx):
             ndis += 1
             ctx.violation("corr:C10/todouble", {"broken": "corr:C10/todouble", "case": c, "impl": a, "model": mm}, found_input=False)
         # the model itself must satisfy the spec (sanity of the theorem's reading)
-        if mm != spec and op not in ("todouble", "hash") and mm != "OUTOFFUEL":
+        if mm != spec and op not in ("todouble", "hash") and mm != "OUTOFFUEL":   # (for printst/streamst spec is the first spec field)
             ctx.notes.append("model/spec mismatch on %s: %s vs %s" % (c, mm, spec))
     for j, i in enumerate(sub):
         if j < len(so) and so[j] != io[i]:
@@ -426,7 +492,8 @@ def run(ctx):
                 "+ seeded random operands for k in %s + all shift counts 0..w-1 and counts >= w + constructed divisions (quotient 0, exact multiples, remainder b-1, "
                 "least sufficient fuel) + self-aliasing compound forms + signed/unsigned built-in operands on either side + hash values + all numeric_limits members "
                 "+ compiled constants + object histories of 3/8/14 statements over three objects (operands aliased with probability 0.4, copy/move/swap, "
-                "built-in operands of every integral type, throwing statements) + typed constructor arguments; non-trivial = some operand digit non-zero; distinct = distinct case lines" % KS,
+                "built-in operands of every integral type, throwing statements) + typed constructor arguments + print/operator<< under stream states (adjustfield x width class x fill x uppercase exhaustive, "
+                "all flag combinations at width 0 and above 4n, random states); non-trivial = some operand digit non-zero; distinct = distinct case lines" % KS,
         "samples": cases[:2] + cases[len(cases) // 2: len(cases) // 2 + 2] + cases[-2:],
         "op_distribution": ops, "widths": KS, "impl_model_disagreements": ndis, "oracle_rejections": nviol,
         "sanitizer_cases": len(sub), "exhaustive": False,
@@ -445,6 +512,9 @@ def replay(ctx, path):
     mo = V.run_cases(ctx, [model], [case], tag="rmodel")
     io = V.run_cases(ctx, [impl], [case], tag="rimpl", timeout=20)
     mm, _, spec = mo[0].partition(" | ")
+    if case.split()[1] in ("printst", "streamst"):
+        spec, _, written = spec.partition(" | ")
+        print("model of the code as written:", written)
     print("case  :", case); print("impl  :", io[0]); print("model :", mm); print("spec  :", spec)
     r = oracle_line(case, io[0], spec)
     print("oracle:", r or "accepts")
